@@ -270,29 +270,29 @@ class euler(base.model):
                     (sL-unL)/(sL-sM),
                     (sR-unR)/(sR-sM))
 
-        Frho = np.where(sM >= 0.,
-                np.where(sL >= 0.,
+        Frho = np.where(sL >= 0.,
                     rhoL*unL,
-                    rhoL*sM*SmUoSSm),
                 np.where(sR <= 0.,
                     rhoR*unR,
-                    rhoR*sM*SmUoSSm))
+                np.where(sM >= 0.,
+                    rhoL*sM*SmUoSSm,
+                    rhoR*sM*SmUoSSm)))
 
-        Frhou = np.where(sM >= 0.,
-                np.where(sL >= 0.,
+        Frhou = np.where(sL >= 0.,
                     Frho*uL+pL,
-                    Frho*uL + (pStar-pL)*SmoSSm + pStar),
                 np.where(sR <= 0.,
                     Frho*uR+pR,
-                    Frho*uR + (pStar-pR)*SmoSSm + pStar) )
+                np.where(sM >= 0.,
+                    Frho*uL + (pStar-pL)*SmoSSm + pStar,
+                    Frho*uR + (pStar-pR)*SmoSSm + pStar)))
 
-        FrhoE = np.where(sM >= 0.,
-                np.where(sL >= 0.,
+        FrhoE = np.where(sL >= 0.,
                     rhoL*HL*unL,
-                    Frho*eL + (pStar*sM-pL*unL)*SmoSSm + pStar*sM),
                 np.where(sR <= 0.,
                     rhoR*HR*unR,
-                    Frho*eR + (pStar*sM-pR*unR)*SmoSSm + pStar*sM))
+                np.where(sM >= 0.,
+                    Frho*eL + (pStar*sM-pL*unL)*SmoSSm + pStar*sM,
+                    Frho*eR + (pStar*sM-pR*unR)*SmoSSm + pStar*sM)))
 
         return [Frho, Frhou, FrhoE]
 
